@@ -172,7 +172,61 @@ func ForallGuard(l *Loop, guard *ssa.If, failSucc *ssa.BasicBlock, sink ssa.Inst
 	if blockReaches(failSucc, sink, nil) {
 		return false, "failing edge of the guard can still reach the sink"
 	}
+	if b := C05LoopLeavesOnlyAtHeader(l, sink); b != nil {
+		return false, "the loop can be left early (break) towards the sink before every element passed the guard"
+	}
 	return true, "every element passes the guard before the sink"
+}
+
+// LoopEarlyExit returns a block of the loop other than the header with an edge that leaves the loop
+// towards a normal continuation (not a panic), i.e. a `break`/`return` that stops the iteration before
+// the collection is exhausted; nil if the loop is only left at its header.
+func LoopEarlyExit(l *Loop) *ssa.BasicBlock {
+	for _, b := range l.Header.Parent().Blocks {
+		if !l.Body[b] || b == l.Header {
+			continue
+		}
+		for _, s := range b.Succs {
+			if l.Body[s] {
+				continue
+			}
+			if len(s.Instrs) > 0 {
+				if _, isPanic := s.Instrs[len(s.Instrs)-1].(*ssa.Panic); isPanic {
+					continue
+				}
+			}
+			return b
+		}
+	}
+	return nil
+}
+
+// InstrReaches reports whether control can flow from just after instruction a to instruction b.
+func InstrReaches(a, b ssa.Instruction) bool {
+	if a.Parent() != b.Parent() {
+		return false
+	}
+	if a.Block() == b.Block() && index(a) < index(b) {
+		return true
+	}
+	for _, s := range a.Block().Succs {
+		if blockReaches(s, b, nil) {
+			return true
+		}
+	}
+	return false
+}
+
+// PathThrough returns an instruction satisfying via that lies on some path from `from` to `to`.
+func PathThrough(from, to ssa.Instruction, via func(ssa.Instruction) bool) ssa.Instruction {
+	for _, b := range from.Parent().Blocks {
+		for _, in := range b.Instrs {
+			if via(in) && InstrReaches(from, in) && InstrReaches(in, to) {
+				return in
+			}
+		}
+	}
+	return nil
 }
 
 // IsMapType reports whether t is a map.
